@@ -17,4 +17,6 @@ func checkC04(c *Check) {
 	runAsm(c, p, []asmCase{{false, false}, {false, true}}, map[string]string{"offset": "R04.1", "consumed": "R04.2", "access": "R04.3", "blockend": "R04.4", "exit": "R04.5", "nowrap32": "R04.8"})
 	c.RuleDoc["R04.8"] = "assembly: 32-bit arithmetic on lengths and positions does not wrap (no instance on the current tree: all length arithmetic is 64-bit)"
 	portableDecoderRules(c, "R04")
+	ruleObservationalCollapse(c, "R04.10")
+	c.RuleDoc["R04.10"] = "= R12.2: UncompressBlock reports success exactly for the decoder's non-negative results (0 included: a block may decode to nothing) and returns the count unchanged"
 }
